@@ -305,6 +305,13 @@ func (r *runner) afterStep() {
 	recs := r.w.db.CommitsSince(r.seenCommits)
 	for _, rec := range recs {
 		r.seenCommits++
+		var before map[rowKey]any
+		if r.has("ids") {
+			before = make(map[rowKey]any, len(r.state))
+			for k, v := range r.state {
+				before[k] = v
+			}
+		}
 		for _, wr := range rec.Writes {
 			if wr.After == nil {
 				delete(r.state, wr.Key)
@@ -321,6 +328,24 @@ func (r *runner) afterStep() {
 		}
 		if r.has("import-exclusive") {
 			r.addV(checkImportInterleave(r, rec)...)
+		}
+		if r.has("pcv") {
+			r.addV(checkPCVAtCommit(r, rec)...)
+		}
+		if r.has("hash-chain") {
+			r.addV(checkHashChain(r.sc.Property, ViewOf(r.state), fmt.Sprintf("after commit %d", rec.Seq))...)
+		}
+		if r.has("references") {
+			r.addV(checkReferencesAtCommit(r.sc.Property, rec, r.state)...)
+		}
+		if r.has("ids") {
+			r.addV(checkIDsAtCommit(r, rec, before)...)
+		}
+		if r.has("accounts") {
+			r.addV(checkAccountsAtCommit(r.sc.Property, rec)...)
+		}
+		if r.has("isolation") {
+			r.addV(checkIsolationAtCommit(r, rec)...)
 		}
 	}
 	if r.worker != nil && r.has("replication") {
@@ -616,6 +641,21 @@ func (r *runner) finalChecks() {
 	if r.has("log-order") {
 		r.addV(CheckLogOrder(sc.Property, commits, views)...)
 	}
+	if r.has("pcv") {
+		r.addV(checkPCVAnswers(r, views)...)
+	}
+	if r.has("hash-chain") {
+		r.addV(checkHashChain(sc.Property, views, "final state")...)
+	}
+	if r.has("references") {
+		r.addV(checkReferenceAnswers(r, views)...)
+	}
+	if r.has("ids") {
+		r.addV(checkIDsFinal(r, views)...)
+	}
+	if r.has("accounts") {
+		r.addV(checkAccounts(r, views)...)
+	}
 	if r.has("no-5xx-without-fault") {
 		r.addV(checkNo5xx(r)...)
 	}
@@ -694,4 +734,12 @@ func maskID(path, id string) string {
 		return path
 	}
 	return strings.ReplaceAll(path, id, "$pipeline")
+}
+
+// organicVictim: how often a statement of the request was aborted as the victim of an organic deadlock
+// (a request that gave up after too many of them fails for that reason, whatever else it would have met).
+func (r *runner) organicVictim(opID string) int {
+	r.w.db.mu.Lock()
+	defer r.w.db.mu.Unlock()
+	return r.w.victims[opID]
 }
